@@ -16,7 +16,7 @@ CHECKS = {
  "C13": ("exploration", "E1 enum",
          "exhaustive small-scope enumeration of messages; differential comparison with an independent RFC 1035/9460 codec (dnsref) and x/net dnsmessage in both directions",
          "All header flag combinations, a name pool covering 0/1/2/127 labels and label lengths 1/63 in every name position, every subset of HTTPS parameters, OPT option lists, every message with <=2 records per section over record pools (package-built and reference-built, uncompressed and maximally compressed), extended RCODE grid and AddPadding for every question-name length 1..253 x OPT states are enumerated completely; each case is round-tripped and cross-decoded by two independent codecs.",
-         "trusts dnsref and x/net dnsmessage v0.42.0; HTTPS parameter keys limited to 1..6 ascending (what dns.HTTPS can represent); decoded names must survive the input buffer being overwritten and appends to one section of a decoded message must not change another", "§3 C13"),
+         "trusts dnsref and x/net dnsmessage v0.42.0; HTTPS parameter keys limited to 1..6 ascending (what dns.HTTPS can represent); decoded names must survive the input buffer being overwritten and appends to one section of a decoded message must not change another; every octet string of a decoded message must end where its data ends (reflection walk, appends filling the capacity)", "§3 C13"),
  "C02": ("fault_enumeration", "E1 enum",
          "exhaustive fault enumeration on spec-built hellos: every single-bit flip, every truncation, every substitution class; crypto/tls as second oracle",
          "For 36 base tuples sealed by an independent reference sender (validated against crypto/tls), every single-bit flip of the outer ClientHello message, every truncation of enc and payload, and each wrong-key/wrong-info/wrong-suite/wrong-config-id/wrong-sequence substitution is fed to the real NewConn; acceptance of any of them is a violation, as is a fall-back that does not forward the client's bytes.",
@@ -67,16 +67,16 @@ CHECKS = {
          "clock/transport owned via verif hooks; responses without records carry no TTL bound; plain data races are covered by the footprint oracle and a supplementary (sampled, reported separately, never counted as exploration) free-running -race pass", "§3 C16"),
  "C20": ("model_checking", "E4 hist + E2 envx + cfmem",
          "history enumeration of publishes against a map-based model over an in-memory fake of the Cloudflare API; API failures as single deviations at every request index",
-         "All histories of up to 2 calls with target lists of length <=2 (3) and all histories of 3 calls with lists <=1, from 15 initial parameter strings (incl. several ech entries, a bare ech key, quoted values with blanks and with an escaped backslash), with the zone on one or three pages, plus a single API failure of three kinds at every request index, are replayed on a fresh publisher; statuses, the stored values (tokenised) of touched and untouched records and the request log are compared with the model after every call.",
+         "All histories of up to 2 calls with target lists of length <=2 (3) and all histories of 3 calls with lists <=1, from 16 initial parameter strings (incl. several ech entries, a bare ech key, quoted values with blanks and with an escaped backslash), with the zone on one or three pages, plus a single API failure of three kinds at every request index, are replayed on a fresh publisher; statuses, the stored values (tokenised) of touched and untouched records and the request log are compared with the model after every call.",
          "one HTTPS record per name and zone; fake API follows Cloudflare v4 list semantics (count = items on the page); the fake gzip-encodes answers to requests that ask for gzip themselves; the caller refills one list buffer per history", "§3 C20"),
  "C18": ("model_checking", "E3 gosched",
          "stateless model checking of the real Dial under a controlled scheduler: sources rewritten at check time (goroutines, channels, select, WaitGroup, context, timers -> shims), all schedules up to a deviation bound in virtual time, monitors over the event log",
          "For every scenario of the grid (1..3 (4) targets x 13 per-target plans (incl. an ECH rejection followed by a hanging retry, a success that ignores its deadline, a host name with slow DNS lookups, a second name on the previous target's address) x MaxConcurrency x delay/timeout x caller cancellation time, plus RequireECH scenarios whose targets come from one resolution result with some records lacking an ech parameter, and the small scenarios again with the Dialer instantiated for an interface connection type, plus failures whose error wraps context.Canceled) every schedule with at most 1 (2) deviations from the canonical one (2 in the quick tier for scenarios with at most 2 targets) is executed on the real code; monitors check start order, in-flight bound, staggering (delay or one reported failure per early start), per-attempt timeout, first success wins, every other established connection closed exactly once, joined errors, prompt return on cancellation, cancelled context for attempts after the decision, and termination of every goroutine.",
-         "computation takes zero virtual time; sequentially consistent memory at synchronisation granularity; IP-literal addresses; scripted DialFunc honouring its context; executions per scenario capped (cap reported when hit)", "§3 C18"),
+         "computation takes zero virtual time; sequentially consistent memory at synchronisation granularity; IP-literal addresses; scripted DialFunc honouring its context; executions per scenario capped (cap reported when hit); the DialFunc that NewDialer installs is replaced by a scripted fake in every scenario and only exercised by a supplementary pass over real loopback sockets (reported separately)", "§3 C18"),
  "C10": ("model_checking", "E3 gosched",
          "stateless model checking of the real NewConn under a controlled scheduler (sources rewritten at check time), all schedules up to a deviation bound in virtual time",
          "For every combination of hello arrival (buffered, late, two fragments, never) x context end (never, cancelled by another thread at three times, cancelled by the caller right after the return, deadline) x keys, every schedule of caller, canceller, client and NewConn's own watcher goroutine with at most 8 deviations (thorough: no bound, the complete schedule tree) is executed on the real code; monitors check prompt failure when the context ends first, and that after a successful return no deadline call starts, no deadline is left set and the caller's Read/Write succeed.",
-         "zero-time computation; sequentially consistent memory at synchronisation granularity; scheduler-aware fake transport honouring deadlines; a second transport shape offers CloseRead/CloseWrite like *net.TCPConn", "§3 C10"),
+         "zero-time computation; sequentially consistent memory at synchronisation granularity; scheduler-aware fake transport honouring deadlines; a second transport shape offers CloseRead/CloseWrite like *net.TCPConn; a third transport shape serves buffered bytes before it looks at its read deadline", "§3 C10"),
  "C17": ("fault_enumeration", "E1 enum + E2 envx",
          "exhaustive enumeration of resolution worlds and caller configurations; every tree of per-attempt outcomes (ok / error / ECH rejection with and without retry configs) explored by re-execution; oracle on the DialFunc argument log",
          "9 resolution worlds (served by an in-memory DoH responder) x 5 caller configs x RequireECH x PublicName x 3 address forms; for each, every outcome vector of the connection attempts is executed on the real Dial; every DialFunc invocation is checked for RequireECH, caller-supplied list/ServerName preservation, per-record ECH list, host-derived server name, exactly one retry with exactly the server's retry configs, and the caller's tls.Config is compared before/after.",
